@@ -131,8 +131,8 @@ func (r *c08Runner) runRefresh(c *c08RefreshCell) {
 				Case: caseInfo, Observed: issued})
 		case issued != c.actor:
 			r.res.hit(verifHit{Key: "C08:refresh-issued-other-identity:" + c.shape,
-				Oracle:   "the refresh endpoint (renewal by the holder) issued a certificate for another identity than the presented certificate's",
-				What:     fmt.Sprintf("%s (%s) refreshed with form %s and obtained CN=%q", c.actor, roleTail, c.shape, issued), Case: caseInfo, Observed: issued})
+				Oracle: "the refresh endpoint (renewal by the holder) issued a certificate for another identity than the presented certificate's",
+				What:   fmt.Sprintf("%s (%s) refreshed with form %s and obtained CN=%q", c.actor, roleTail, c.shape, issued), Case: caseInfo, Observed: issued})
 		}
 		if c.credKind != "ipcert" {
 			r.res.hit(verifHit{Key: "C08:refresh-without-ip-certificate:" + c.credKind,
@@ -211,7 +211,15 @@ func c08RefreshForms(actor string, byName []string) []c08RefreshForm {
 	if actor != "autoadm" {
 		fs = append(fs, c08RefreshForm{"identity-automation-admin", "autoadm", true})
 	}
-	fs = append(fs, c08RefreshForm{"identity-unknown", "ghost", true}, c08RefreshForm{"identity-unconfigured-lookalike", actor + "2", true})
+	fs = append(fs, c08RefreshForm{"identity-unknown", "ghost", true})
+	look := actor + "2" // a name that merely resembles the holder's
+	configured := false
+	for _, n := range byName {
+		configured = configured || n == look
+	}
+	if !configured {
+		fs = append(fs, c08RefreshForm{"identity-unconfigured-lookalike", look, true})
+	}
 	return fs
 }
 
